@@ -5,15 +5,17 @@ from vlib import hexs
 
 REQUIRED = ['auth_only_if_backend_accepts', 'no_partial_identity', 'backend_failure_never_authenticates',
             'malformed_never_authenticates', 'authenticated_client_only_via_accept', 'cancel_never_authenticates',
-            'auth_refused_when', 'auth_refused_before_ehlo', 'auth_mask_is_ehlo_state', 'rows_enabling_auth',
+            'auth_refused_when', 'auth_refused_without_setup', 'auth_refused_before_ehlo', 'auth_mask_is_ehlo_state', 'rows_enabling_auth',
             'plain_fields_spec', 'authname_may_contain_crlf', 'login_fields_may_contain_nul',
-            'b64_no_fault', 'b64_strict', 'b64_rejects_nul']
+            'b64_no_fault', 'b64_strict', 'b64_rejects_nul', 'b64_roundtrip', 'b64_roundtrip_strip',
+            'b64_roundtrip_loses_trailing_nul']
 
 CORR = {
     'b64d': 'model QsmtpModel.Base64.decode vs lib/base64.c:b64decode',
     'b64e': 'model QsmtpModel.Base64.encode vs lib/base64.c:b64encode',
     'sess': 'model QsmtpModel.Auth.smtpAuth vs qsmtpd/auth.c:smtp_auth + auth_backend_execute (scripted net_readline)',
     'nsess': 'model QsmtpModel.Auth.smtpAuth vs qsmtpd/auth.c:smtp_auth over the real lib/netio.c',
+    'setup': 'model QsmtpModel.Auth.authSetup vs qsmtpd/auth.c:auth_setup + auth_backend_setup',
 }
 EINVAL, EIO, EMFILE, EAGAIN, ENOMEM, ECHILD, ECONNRESET = 22, 5, 24, 11, 12, 10, 104
 
@@ -33,7 +35,7 @@ def gen_b64d(ctx):
         cases.append('b64d ' + hexs(bytes(b)))
         ctx.count('b64d:' + tag)
     alpha = [0x41, 0x2f, 0x3d, 0x0d, 0x0a, 0x00, 0x78]      # A / = CR LF NUL x
-    full = 5 if quick else 7
+    full = 6 if quick else 7
     for L in range(0, full + 1):
         for t in itertools.product(alpha, repeat=L):
             add(t, 'exhaustive<=%d' % full)
@@ -100,7 +102,7 @@ def gen_b64e(ctx):
         L = rng.choice([0, 1, 2, 3, 4, 5, 6, 30, 57, 58, 68, 69, 70, 100]) if rng.random() < 0.5 else rng.randrange(0, 120)
         # wraplimit < 4 overruns movebuf[4], 5..7 overrun the output block for long inputs (faults on both sides;
         # each costs a harness restart, so they are kept rare)
-        wl = rng.choice([1, 2, 3, 5, 6, 7]) if rng.random() < 0.03 else rng.choice([4, 8, 9, 12, 16, 72, 76, 77, 4294967295, 4294967295])
+        wl = rng.choice([1, 2, 3, 5, 6, 7]) if rng.random() < 0.012 else rng.choice([4, 8, 9, 12, 16, 72, 76, 77, 4294967295, 4294967295])
         cases.append('b64e %s %d' % (hexs(bytes(rng.randrange(256) for _ in range(L))), wl))
         ctx.count('b64e:wraplimit=%s' % ('UINT_MAX' if wl > 1000 else '<8' if wl < 8 else '8..77'))
     return cases
@@ -285,7 +287,7 @@ def gen_sess(ctx):
             for s in (good, (b'AUTH LOGIN', [item(b'dQ==\r\n'), item(b'cA==\r\n')], [], '-:x0'), (b'AUTH FOO', [], [], '-:x0')):
                 add(flags, an, [s], 'exhaustive-state')
     # (b)/(c) random histories
-    n = 5000 if quick else 60000
+    n = 14000 if quick else 90000
     for _ in range(n):
         r = rng.random()
         flags = (1, 0, 0, 0)
@@ -311,7 +313,7 @@ def gen_nsess(ctx):
     into read() segments; garbage in between"""
     rng, quick = ctx.rng, ctx.quick()
     cases = []
-    for _ in range(2500 if quick else 30000):
+    for _ in range(8000 if quick else 48000):
         flags = (1, 0, 0, 0) if rng.random() < 0.9 else tuple(rng.randrange(2) for _ in range(4))
         steps = [gen_step(ctx, rng) for _ in range(rng.choice([1, 2, 2, 3]))]
         stream = bytearray()
@@ -420,35 +422,26 @@ def build(ctx):
     return h, env
 
 
+SLICE = 24000   # cases per differential call: every session forks real children, and the runner's
+                # timeout is per chunk (slice / 16 workers), so big jobs are fed in slices
+
+
 def diff_env(ctx, name, h, env, cases, pred=None, nontrivial=None):
     """vlib.differential with the harness environment (record directory, stand-in path)"""
     old = vlib.ENV
     vlib.ENV = env
+    res = []
     try:
-        return vlib.differential(ctx, name, h, cases, canon_h=canon, pred=pred, nontrivial=nontrivial, corr_name=CORR[name])
+        for k in range(0, len(cases), SLICE):
+            res += vlib.differential(ctx, name, h, cases[k:k + SLICE], canon_h=canon, pred=pred, nontrivial=nontrivial,
+                                     corr_name=CORR[name])
     finally:
         vlib.ENV = old
-
-
-MY_FILES = ('lib/base64.c', 'qsmtpd/auth.c', 'qsmtpd/backends/auth_chkpw/', 'qsmtpd/qsmtpd.c: commands', 'qsmtpd/qsmtpd.c:commands',
-            'include/qsmtpd/qsmtpd.h', 'Base64.lean', 'Auth.lean')
-
-
-def own_anchors_only(ctx):
-    """extract.run() reports the broken anchors of *every* tools/gen module; the ones of other
-    properties' files are theirs to report (they do not enter Gen/Base64.lean or Gen/Auth.lean)"""
-    keep = []
-    for u in ctx.unshown:
-        if u.startswith('extract:') and not any(f in u for f in MY_FILES):
-            ctx.notes.append('ignored (other module): ' + u)
-            continue
-        keep.append(u)
-    ctx.unshown[:] = keep
+    return res
 
 
 def run(ctx):
     vlib.lean_prepare(ctx, REQUIRED)
-    own_anchors_only(ctx)
     h, env = build(ctx)
     if h:
         corpus = load_corpus(ctx)
@@ -460,7 +453,10 @@ def run(ctx):
         ctx.count('sess:authenticated-steps', sum(len(re.findall(r'ret=0 an=[0-9a-f]', o)) for _, o, _ in res))
         ctx.count('sess:checkpassword-runs', sum(len(re.findall(r'fd3=[0-9a-f_]', o)) for _, o, _ in res))
         ctx.count('sess:die', sum(o.count('die=') for _, o, _ in res))
-        run_nsess(ctx, h, env, corpus['nsess'] + gen_nsess(ctx))
+        ncases = corpus['nsess'] + gen_nsess(ctx)
+        for k in range(0, len(ncases), SLICE):
+            run_nsess(ctx, h, env, ncases[k:k + SLICE])
+        diff_env(ctx, 'setup', h, env, ['setup %d %d %d' % (a, d, x) for a in range(1, 6) for d in (0, 1) for x in (0, 1)])
     if not ctx.quick():
         vlib.leanchecker(ctx, ['QsmtpModel.Props.C09', 'QsmtpModel.Lemmas.Base64', 'QsmtpModel.Lemmas.Auth'])
     return vlib.finish(ctx, assumptions=[
